@@ -962,6 +962,48 @@ UNUSABLE_SQL = re.compile(
     r"WHERE dependency\.sink = \? AND \( (?P<cond>.*) \) \)")
 
 
+# the same query as a shared fragment (findings.d/C10-D39-refine.patch: unusable_dynamic_input_sql(node_expr),
+# used by Step.has_unusable_dynamic_input and by the trigger step_node_undefer_reattached)
+UNUSABLE_SQL_SHARED = re.compile(
+    r"SELECT 1 FROM dependency AS dyn_dep JOIN dynamic_dep ON dynamic_dep\.i = dyn_dep\.i "
+    r"JOIN node AS dyn_node ON dyn_node\.i = dyn_dep\.source JOIN file AS dyn_file ON dyn_file\.node = dyn_dep\.source "
+    r"WHERE dyn_dep\.sink = @NODE@ AND \( (?P<cond>.*) \)")
+
+
+def _fstring_sql(where, joined, ev, names=()):
+    parts = []
+    for v in joined.values:
+        if isinstance(v, ast.Constant):
+            parts.append(v.value)
+            continue
+        text = ast.unparse(v.value)
+        m = re.fullmatch(r"FileState\.(\w+)\.value", text)
+        if m and m.group(1) in ev["FileState"]:
+            parts.append(str(ev["FileState"][m.group(1)]))
+        elif text in names:
+            parts.append(f"@{text.upper()}@")
+        else:
+            raise TranslatorError(f"{where}: unrecognised interpolation {text}")
+    return re.sub(r"\s+", " ", "".join(parts)).strip()
+
+
+def _unusable_shared_fragment(stree, ev):
+    """Per-input condition of the module function unusable_dynamic_input_sql(node_expr), or None."""
+    fns = [n for n in stree.body if isinstance(n, ast.FunctionDef) and n.name == "unusable_dynamic_input_sql"]
+    if not fns:
+        return None
+    fn = fns[0]
+    body = body_without_docstring(fn)
+    if not ([a.arg for a in fn.args.args] == ["node_expr"] and len(body) == 1 and isinstance(body[0], ast.Return)
+            and isinstance(body[0].value, ast.JoinedStr)):
+        raise TranslatorError("unusable_dynamic_input_sql: not `return f'...'` of one argument node_expr")
+    sql = _fstring_sql("unusable_dynamic_input_sql", body[0].value, ev, names=("node_expr",)).replace("@NODE_EXPR@", "@NODE@")
+    m = UNUSABLE_SQL_SHARED.fullmatch(sql)
+    if not m:
+        raise TranslatorError(f"unusable_dynamic_input_sql: query shape changed: {sql[:300]}")
+    return SqlBool(m.group("cond"), {"dyn_node.detached": ("bool", "detached"), "dyn_file.state": ("num", "st")}).parse()
+
+
 def gen_unusable_dynamic_input(ev, uses):
     """Step.has_unusable_dynamic_input (84081f2): EXISTS over the dynamic dependencies of the step of a
     per-input condition on (node.detached, file.state); the condition is parsed with SqlBool.  When the
@@ -982,6 +1024,19 @@ def gen_unusable_dynamic_input(ev, uses):
             and isinstance(body[0].value, ast.JoinedStr)
             and _norm(body[1]) == "return bool(self.db.execute(sql, (self.i,)).fetchone()[0])"):
         raise TranslatorError("Step.has_unusable_dynamic_input: body is not `sql = f'...'; return bool(execute(sql, (self.i,)).fetchone()[0])`")
+    shared = _unusable_shared_fragment(stree, ev)
+    if shared is not None:
+        vals = body[0].value.values
+        if not (len(vals) == 3 and isinstance(vals[0], ast.Constant) and vals[0].value.strip() == "SELECT EXISTS ("
+                and isinstance(vals[2], ast.Constant) and vals[2].value.strip() == ")"
+                and isinstance(vals[1], ast.FormattedValue)
+                and ast.dump(vals[1].value) == ast.dump(ast.parse("unusable_dynamic_input_sql('?')").body[0].value)):
+            raise TranslatorError("Step.has_unusable_dynamic_input: not `SELECT EXISTS (unusable_dynamic_input_sql('?'))`: "
+                                  + _norm(body[0]))
+        return ("(* Step.has_unusable_dynamic_input = EXISTS (unusable_dynamic_input_sql('?')): a dynamic dependency of\n"
+                "   the step whose source file satisfies this (fragment shared with the trigger step_node_undefer_reattached) *)\n"
+                f"Definition unusable_dyn_input_gen (st : N) (detached : bool) : bool := {shared}.\n"
+                "Definition has_unusable_dynamic_input_in_source : bool := true.")
     parts = []
     for v in body[0].value.values:
         if isinstance(v, ast.Constant):
